@@ -749,8 +749,17 @@ func (e *Engine) runPath(solver *Solver, harness *ssa.Function, prefix []bool, w
 		case unsupportedErr:
 			res.status = "unsupported"
 			res.detail = p.msg
+		case exitPanic:
+			res.status = "unsupported"
+			res.detail = "os.Exit outside verifExitCode"
 		default:
-			panic(p)
+			// a limitation of the interpreter itself (type it does not model, value shape it did not expect): the path
+			// is not decided; never a crash of the whole run and never a pass
+			res.status = "unsupported"
+			res.detail = fmt.Sprintf("engine limitation: %v", p)
+			if len(res.detail) > 160 {
+				res.detail = res.detail[:160]
+			}
 		}
 	}()
 	// package initialisers
